@@ -23,6 +23,7 @@ func C07(c *Ctx) {
 		"(R4) the signing deadline cannot silently disable a round: if the callbacks advance the signing payload's UpdatedAt, every proposal must renew its ExpiresAt; " +
 		"(R5) event_signing_start replaces the signing quorum by a freshly made map on every accepting path and fills it only with freshly allocated entries, so partial signatures and statuses of a finished batch cannot leak into the next one. " +
 		"(R6) a received reconstruction is stored whatever state the round is in when it arrives: neither the branch of processMessage that handles signature_reconstructed nor processSignature tests the round's FSM instance, dump or the clock, every decoded entry is handed to SaveSignatures, and no success return bypasses the save (a reconstruction that arrives after the next proposal — the normal case for a lagging node — must still be kept). " +
+		"(R9) the proposer gives every proposal a freshly generated batch id that depends on nothing the caller supplies: id equality is all that separates a late answer to an earlier proposal from an answer to the current one. " +
 		"NOT decided: that reconstruction succeeds for every delivery order (tbls.Recover aborts on the first invalid share — recorded as an observation), polling, eventual delivery."
 	r.Trusted = []string{"go/ssa", "FSM engine model (C05/E)"}
 	r.Rule("C07/R1", "restart provenance: the saved dump is the restart's dump; restart only after reconstruction+broadcast succeeded", 3)
@@ -36,6 +37,8 @@ func C07(c *Ctx) {
 	c07NoSilentSkip(c)
 	r.Rule("C07/R7", "a finished batch stays finished: the blob holding all rounds is rewritten under one fixed lock (a save of another round must not restore this round's earlier dump)", 1)
 	c14RMWAs(c, c14Roots(c), "C07/R7", "SaveFSM")
+	r.Rule("C07/R9", "every proposal gets a batch id of its own: the id is drawn fresh and does not depend on what is proposed (answers are bound to their batch by id equality alone)", 1)
+	c07FreshBatchID(c)
 	ms := c.Machines("C07/A1")
 	fn := c.Fn("C07/R1", pkgNode, "BaseNodeService", "processMessage")
 	if fn == nil || len(ms) != 3 {
@@ -509,4 +512,45 @@ func derivesFromExcept(v ssa.Value, pred, stop func(ssa.Value) bool, depth int, 
 		}
 	}
 	return false
+}
+
+
+// c07FreshBatchID: the only thing that separates a late answer to an earlier proposal from an answer to the current one is
+// BatchID equality (C06/R3, C07/R2). That is sound only if two proposals never share an id: the proposer draws it from
+// the uuid package's generators and from nothing the caller supplies (re-proposing the same data must give a new id).
+func c07FreshBatchID(c *Ctx) {
+	r := c.R
+	fn := c.Fn("C07/R9", pkgNode, "BaseNodeService", "ProposeSignMessages")
+	if fn == nil {
+		return
+	}
+	n := 0
+	ssax.Instrs(fn, func(in ssa.Instruction) {
+		st, ok := in.(*ssa.Store)
+		if !ok {
+			return
+		}
+		fa, ok := st.Addr.(*ssa.FieldAddr)
+		if !ok {
+			return
+		}
+		fv := ssax.FieldOf(fa)
+		if fv == nil || fv.Name() != "BatchID" {
+			return
+		}
+		n++
+		p := ssax.Path(st.Val)
+		fresh := strings.Contains(p, "uuid.New()") || strings.Contains(p, "uuid.NewString()") || strings.Contains(p, "uuid.NewRandom()") || strings.Contains(p, "uuid.NewUUID()")
+		fromInput := false
+		for _, prm := range fn.Params {
+			if strings.Contains(p, prm.Name()+".") || strings.Contains(p, "("+prm.Name()+")") || strings.Contains(p, "("+prm.Name()+",") || strings.Contains(p, ", "+prm.Name()+")") {
+				fromInput = true
+			}
+		}
+		r.Check(fresh && !fromInput, "C07/R9", "node.ProposeSignMessages:batch-id-fresh", "the proposal's BatchID is a freshly generated uuid, independent of the proposed data", c.PosOf(st),
+			"BatchID is "+p+": two proposals of the same data get the same id, so a slow participant's answer to the first is accepted into the second (recorded under stale message ids), its real answer is refused, and the batch reaches the threshold with t-1 usable shares — reconstruction fails on every further answer")
+	})
+	if n == 0 {
+		r.Unknown("C07/R9", "node.ProposeSignMessages:batch-id-fresh", "the proposal's BatchID is set by the proposer", c.Pos(fn.Pos()), "no store to a BatchID field found in ProposeSignMessages")
+	}
 }
